@@ -15,19 +15,22 @@ def SidePreserved (P : Side → Prop) : Prop :=
   ∀ (sd : Side) (bat : List Nat) (own : Nat → List Nat), SideInv sd bat own → P sd →
     ∀ (content : Bytes) (name ext : Str) (kind flag : Nat), (∀ c ∈ name, c ≠ 0xFF) → P (writeFile sd content name ext kind flag).side
 
-def ImgAll (P : Side → Prop) (img : Image) : Prop := ∀ k, k < 4 → P (img.getD k [])
+/-- a predicate per side index, holding on every side of the image -/
+def ImgAllI (P : Nat → Side → Prop) (img : Image) : Prop := ∀ k, k < 4 → P k (img.getD k [])
 
-theorem ImgAll.set {P : Side → Prop} {img : Image} (h : ImgAll P img) (h4 : img.length = 4) (i : Nat) (sd : Side) (hs : P sd) :
-    ImgAll P (img.set i sd) := by
+def ImgAll (P : Side → Prop) (img : Image) : Prop := ImgAllI (fun _ => P) img
+
+theorem ImgAllI.set {P : Nat → Side → Prop} {img : Image} (h : ImgAllI P img) (h4 : img.length = 4) (i : Nat) (sd : Side) (hs : P i sd) :
+    ImgAllI P (img.set i sd) := by
   intro j hj
   by_cases hij : i = j
   · subst hij; rw [getD_set_eq _ _ _ _ (by rw [h4]; exact hj)]; exact hs
   · rw [getD_set_ne _ _ _ _ _ hij]; exact h j hj
 
-theorem injWriteFile_pres {P : Side → Prop} (hP : SidePreserved P) (name ext : Str) (kind flag : Nat) (data : Bytes)
+theorem injWriteFile_presI {P : Nat → Side → Prop} (hP : ∀ k, SidePreserved (P k)) (name ext : Str) (kind flag : Nat) (data : Bytes)
     (hname : ∀ c ∈ name, c ≠ 0xFF) :
-    ∀ (fuel : Nat) (st : Inj), ImgOk st.img → ImgAll P st.img →
-      ∃ st', injWriteFile name ext kind flag data fuel st = .ok st' ∧ ImgOk st'.img ∧ ImgAll P st'.img := by
+    ∀ (fuel : Nat) (st : Inj), ImgOk st.img → ImgAllI P st.img →
+      ∃ st', injWriteFile name ext kind flag data fuel st = .ok st' ∧ ImgOk st'.img ∧ ImgAllI P st'.img := by
   intro fuel
   induction fuel with
   | zero => intro st h hp; exact ⟨st, rfl, h, hp⟩
@@ -39,14 +42,14 @@ theorem injWriteFile_pres {P : Side → Prop} (hP : SidePreserved P) (name ext :
     · rw [if_neg hc]
       have hcur : st.cur < 4 := by omega
       obtain ⟨bat, own, inv⟩ := h.2 st.cur hcur
-      have hpres := hP _ bat own inv (hp st.cur hcur) data name ext kind flag hname
+      have hpres := hP st.cur _ bat own inv (hp st.cur hcur) data name ext kind flag hname
       rcases writeFile_inv inv data name ext kind flag hname with ⟨sd', i0, hw, _, _, inv', _⟩ | ⟨sd', msg, hw, inv', _⟩
       · rw [hw] at hpres ⊢
         exact ⟨_, rfl, h.set _ _ ⟨_, _, inv'⟩, hp.set h.1 _ _ hpres⟩
       · rw [hw] at hpres ⊢
         dsimp only
         have himg : ImgOk (st.img.set st.cur sd') := h.set _ _ ⟨_, _, inv'⟩
-        have hpimg : ImgAll P (st.img.set st.cur sd') := hp.set h.1 _ _ hpres
+        have hpimg : ImgAllI P (st.img.set st.cur sd') := hp.set h.1 _ _ hpres
         obtain ⟨u, hu⟩ := usageOfSide_ok himg st.cur hcur
         rw [hu]
         dsimp only
@@ -55,9 +58,9 @@ theorem injWriteFile_pres {P : Side → Prop} (hP : SidePreserved P) (name ext :
         · rw [if_neg hn]
           exact ih _ himg hpimg
 
-theorem injFile_pres {P : Side → Prop} (hP : SidePreserved P) (w : Tape.World) (src : Str) (hsrc : CleanSrc src) (st : Inj)
-    (h : ImgOk st.img) (hp : ImgAll P st.img) :
-    ∃ st' b, injFile w src st = .ok (st', b) ∧ ImgOk st'.img ∧ ImgAll P st'.img := by
+theorem injFile_presI {P : Nat → Side → Prop} (hP : ∀ k, SidePreserved (P k)) (w : Tape.World) (src : Str) (hsrc : CleanSrc src) (st : Inj)
+    (h : ImgOk st.img) (hp : ImgAllI P st.img) :
+    ∃ st' b, injFile w src st = .ok (st', b) ∧ ImgOk st'.img ∧ ImgAllI P st'.img := by
   unfold injFile
   have hname := splitSource_name_clean src hsrc
   generalize splitSource src = sp at hname
@@ -71,14 +74,14 @@ theorem injFile_pres {P : Side → Prop} (hP : SidePreserved P) (w : Tape.World)
     · exact ⟨_, _, rfl, h, hp⟩
     · split
       · exact ⟨_, _, rfl, h, hp⟩
-      · obtain ⟨st', hst', hok, hpp⟩ := injWriteFile_pres hP fileName (dispatch fileName fileExtension extWithOption).2.2
+      · obtain ⟨st', hst', hok, hpp⟩ := injWriteFile_presI hP fileName (dispatch fileName fileExtension extWithOption).2.2
           (dispatch fileName fileExtension extWithOption).1 (dispatch fileName fileExtension extWithOption).2.1 data hname 4 st h hp
         rw [hst']
         exact ⟨_, _, rfl, hok, hpp⟩
 
-theorem injLoop_pres {P : Side → Prop} (hP : SidePreserved P) (w : Tape.World) : ∀ (srcs : List Str) (st : Inj),
-    (∀ src ∈ srcs, CleanSrc src) → ImgOk st.img → ImgAll P st.img →
-    ∃ st', injLoop w srcs st = .ok st' ∧ ImgOk st'.img ∧ ImgAll P st'.img := by
+theorem injLoop_presI {P : Nat → Side → Prop} (hP : ∀ k, SidePreserved (P k)) (w : Tape.World) : ∀ (srcs : List Str) (st : Inj),
+    (∀ src ∈ srcs, CleanSrc src) → ImgOk st.img → ImgAllI P st.img →
+    ∃ st', injLoop w srcs st = .ok st' ∧ ImgOk st'.img ∧ ImgAllI P st'.img := by
   intro srcs
   induction srcs with
   | nil => intro st _ h hp; exact ⟨st, rfl, h, hp⟩
@@ -92,19 +95,19 @@ theorem injLoop_pres {P : Side → Prop} (hP : SidePreserved P) (w : Tape.World)
       split
       · exact ⟨_, rfl, h, hp⟩
       · exact ih _ (fun s hm => hs s (by simp [hm])) h hp
-    · obtain ⟨st', b, hst', hok, hpp⟩ := injFile_pres hP w src (hs src (by simp)) st h hp
+    · obtain ⟨st', b, hst', hok, hpp⟩ := injFile_presI hP w src (hs src (by simp)) st h hp
       rw [hst']
       dsimp only
       split
       · exact ⟨_, rfl, hok, hpp⟩
       · exact ih _ (fun s hm => hs s (by simp [hm])) hok hpp
 
-theorem performCore_pres {P : Side → Prop} (hP : SidePreserved P) (w : Tape.World) (verbose : Bool) (img : Image) (srcs : List Str)
-    (himg : ImgOk img) (hp : ImgAll P img) (hs : ∀ src ∈ srcs, CleanSrc src) :
-    ∃ st, performCore w verbose img srcs = .ok st ∧ ImgOk st.img ∧ ImgAll P st.img := by
+theorem performCore_presI {P : Nat → Side → Prop} (hP : ∀ k, SidePreserved (P k)) (w : Tape.World) (verbose : Bool) (img : Image) (srcs : List Str)
+    (himg : ImgOk img) (hp : ImgAllI P img) (hs : ∀ src ∈ srcs, CleanSrc src) :
+    ∃ st, performCore w verbose img srcs = .ok st ∧ ImgOk st.img ∧ ImgAllI P st.img := by
   unfold performCore
   dsimp only
-  obtain ⟨st1, h1, hok1, hp1⟩ := injLoop_pres hP w srcs { img := img, cur := 0, l := onBeginOfSide { processing := 2, verbose := verbose } 0 } hs himg hp
+  obtain ⟨st1, h1, hok1, hp1⟩ := injLoop_presI hP w srcs { img := img, cur := 0, l := onBeginOfSide { processing := 2, verbose := verbose } 0 } hs himg hp
   rw [h1]
   dsimp only
   split
@@ -115,6 +118,11 @@ theorem performCore_pres {P : Side → Prop} (hP : SidePreserved P) (w : Tape.Wo
     rw [h2]
     exact ⟨st2, rfl, by rw [himg2]; exact hok1, by rw [himg2]; exact hp1⟩
   · exact ⟨st1, rfl, hok1, hp1⟩
+
+theorem performCore_pres {P : Side → Prop} (hP : SidePreserved P) (w : Tape.World) (verbose : Bool) (img : Image) (srcs : List Str)
+    (himg : ImgOk img) (hp : ImgAll P img) (hs : ∀ src ∈ srcs, CleanSrc src) :
+    ∃ st, performCore w verbose img srcs = .ok st ∧ ImgOk st.img ∧ ImgAll P st.img :=
+  performCore_presI (P := fun _ => P) (fun _ => hP) w verbose img srcs himg hp hs
 
 /-! ### byte 0 of the table sector -/
 
